@@ -1246,7 +1246,7 @@ impl<'a> Exec<'a> {
         if keys::base(&rec.key) != cnf_key {
             return Some("kb_signed_by_other_key".into());
         }
-        if keys::family_of_alg(&rec.alg) != &cnf_key[..2] {
+        if !keys::alg_fits_key(&rec.alg, cnf_key) {
             return Some("kb_alg_family".into());
         }
         let parts: Vec<&str> = kb.split('.').collect();
